@@ -112,10 +112,14 @@ Base(path) == LET idx == {k \in 1..Len(path) : SubSeq(path, k, k) = "/"} IN
    in order, into unity files of `unity_size` sources each - ceil(n / unity_size) files - and only those are
    compiled; a consumer of the target's objects (extract_all_objects(), the static half of a both-library)
    links exactly the objects of those unity files.  `unity=subprojects` applies to subproject targets only. *)
-IsUnity(p, t) == IsBuild(t) /\ (p.unity = "on" \/ (p.unity = "subprojects" /\ t.sp # ""))
+\* (fields added later are read through accessors so that abstract projects without them keep their meaning)
+PUnity(p) == IF "unity" \in DOMAIN p THEN p.unity ELSE "off"
+PUnitySize(p) == IF "unity_size" \in DOMAIN p THEN p.unity_size ELSE 4
+TObjs(t) == IF "objs" \in DOMAIN t THEN t.objs ELSE <<>>
+IsUnity(p, t) == IsBuild(t) /\ (PUnity(p) = "on" \/ (PUnity(p) = "subprojects" /\ t.sp # ""))
 CSources(p, t) == {Src(t, s) : s \in Rng(t.srcs)} \cup GenC(p, t) \cup GenListC(p, t)
 UnityChunks(n, size) == (n + size - 1) \div size
-NUnity(p, t) == UnityChunks(Cardinality(CSources(p, t)), p.unity_size)
+NUnity(p, t) == UnityChunks(Cardinality(CSources(p, t)), PUnitySize(p))
 UnitySrc(p, t, k) == Join(Priv(p, t), t.name \o "-unity" \o ToString(k) \o ".c")
 UnitySrcs(p, t) == {UnitySrc(p, t, k) : k \in 0..(NUnity(p, t) - 1)}
 GeneratorEdges(p, t) ==
@@ -133,7 +137,7 @@ CompileEdges(p, t) ==
     \cup GeneratorEdges(p, t)
 Objects(p, t) == UNION {Rng(e.outs) : e \in {x \in CompileEdges(p, t) : x.rule = "c_COMPILER"}}
 \* objects a target links: its own and those extracted from other targets (objects: t.extract_all_objects())
-LinkObjects(p, t) == Objects(p, t) \cup UNION {Objects(p, p.targets[o]) : o \in Rng(t.objs)}
+LinkObjects(p, t) == Objects(p, t) \cup UNION {Objects(p, p.targets[o]) : o \in Rng(TObjs(t))}
 LinkEdges(p, t) ==
     IF t.kind = "exe"
     THEN {E("c_LINKER", SetToSeq(LinkObjects(p, t)), SetToSeq(UNION {RefOuts(p, p.targets[l]) : l \in Rng(t.link)}), <<>>,
@@ -196,7 +200,7 @@ ExtractionWrong(p, M, c, t) ==
         taken(e) == {q \in ExplicitIns(M, e) : StartsWith(q, Priv(p, t) \o "/")}
     IN UNION {(taken(e) \ UnityObjectsIn(p, M, t)) \cup (UnityObjectsIn(p, M, t) \ taken(e)) : e \in stmts}
 UnityExtractionWrong(p, M) ==
-    UNION {UNION {ExtractionWrong(p, M, p.targets[c], p.targets[i]) : c \in {x \in Targets(p) : i \in Rng(p.targets[x].objs)}}
+    UNION {UNION {ExtractionWrong(p, M, p.targets[c], p.targets[i]) : c \in {x \in Targets(p) : i \in Rng(TObjs(p.targets[x]))}}
              : i \in UnityTargets(p)}
     \* a both-library: every link statement of the target (shared and static half) takes its unity objects
     \cup UNION {ExtractionWrong(p, M, p.targets[i], p.targets[i]) : i \in UnityTargets(p)}
